@@ -1195,10 +1195,17 @@ def c06(stream, scen=None):
             if d is None:
                 continue
             if d.kind == 'sink':
-                c = int(pd[x].f.get('cyc', '0')) if x in pd else 0
                 if x in last_sink and f.now - last_sink[x][0] < last_sink[x][1]:
-                    wit.append(f'frame {i}: sink {x} accepted a part {f.now - last_sink[x][0]} after the previous one, cycle time {last_sink[x][1]}')
-                last_sink[x] = (f.now, int(d.f.get('cyc', '0')))
+                    wit.append(f'frame {i}: sink {x} accepted a part {f.now - last_sink[x][0]} after the previous one, '
+                               f'cycle time in effect (one-shot offset included) {last_sink[x][1]}')
+                # cycle time in effect for THIS part: the sink's cycle time and one-shot offset just before the receipt
+                c0 = int(pd[x].f.get('cyc', '0')) if x in pd else int(d.f.get('cyc', '0'))
+                o0 = int(pd[x].f.get('off', '0')) if x in pd else 0
+                for cb in cbs.get(x, []):
+                    o0 += int(cb[1])
+                    if cb[0] != '-':
+                        c0 = int(cb[0])
+                last_sink[x] = (f.now, max(0, c0 + o0))
             if d.kind in ('handler', 'processor'):
                 off = int(pd[x].f.get('off', '0')) if x in pd else 0
                 cyc = int(pd[x].f.get('cyc', '0')) if x in pd else int(d.f.get('cyc', '0'))
